@@ -32,6 +32,7 @@ func (idm *MemIdm) AdminUser() avfs.UserReader {
 // AddGroup creates a new group with the specified name.
 // If the group already exists, the returned error is of type avfs.AlreadyExistsGroupError.
 func (idm *MemIdm) AddGroup(name string) (avfs.GroupReader, error) {
+	verifYield(&idm.grpMu, true)
 	idm.grpMu.Lock()
 	defer idm.grpMu.Unlock()
 
@@ -57,6 +58,7 @@ func (idm *MemIdm) AddUser(name, groupName string) (avfs.UserReader, error) {
 		return nil, err
 	}
 
+	verifYield(&idm.usrMu, true)
 	idm.usrMu.Lock()
 	defer idm.usrMu.Unlock()
 
@@ -82,6 +84,7 @@ func (idm *MemIdm) AddUser(name, groupName string) (avfs.UserReader, error) {
 // DelGroup deletes an existing group with the specified name.
 // If the group is not found, the returned error is of type avfs.UnknownGroupError.
 func (idm *MemIdm) DelGroup(name string) error {
+	verifYield(&idm.grpMu, true)
 	idm.grpMu.Lock()
 	defer idm.grpMu.Unlock()
 
@@ -99,6 +102,7 @@ func (idm *MemIdm) DelGroup(name string) error {
 // DelUser deletes an existing user with the specified name.
 // If the user is not found, the returned error is of type avfs.UnknownUserError.
 func (idm *MemIdm) DelUser(name string) error {
+	verifYield(&idm.usrMu, true)
 	idm.usrMu.Lock()
 	defer idm.usrMu.Unlock()
 
@@ -116,6 +120,7 @@ func (idm *MemIdm) DelUser(name string) error {
 // LookupGroup looks up a group by name.
 // If the group is not found, the returned error is of type avfs.UnknownGroupError.
 func (idm *MemIdm) LookupGroup(name string) (avfs.GroupReader, error) {
+	verifYield(&idm.grpMu, false)
 	idm.grpMu.RLock()
 	defer idm.grpMu.RUnlock()
 
@@ -130,6 +135,7 @@ func (idm *MemIdm) LookupGroup(name string) (avfs.GroupReader, error) {
 // LookupGroupId looks up a group by groupid.
 // If the group is not found, the returned error is of type avfs.UnknownGroupIdError.
 func (idm *MemIdm) LookupGroupId(gid int) (avfs.GroupReader, error) {
+	verifYield(&idm.grpMu, false)
 	idm.grpMu.RLock()
 	defer idm.grpMu.RUnlock()
 
@@ -144,6 +150,7 @@ func (idm *MemIdm) LookupGroupId(gid int) (avfs.GroupReader, error) {
 // LookupUser looks up a user by username.
 // If the user is not found, the returned error is of type avfs.UnknownUserError.
 func (idm *MemIdm) LookupUser(name string) (avfs.UserReader, error) {
+	verifYield(&idm.usrMu, false)
 	idm.usrMu.RLock()
 	defer idm.usrMu.RUnlock()
 
@@ -158,6 +165,7 @@ func (idm *MemIdm) LookupUser(name string) (avfs.UserReader, error) {
 // LookupUserId looks up a user by userid.
 // If the user is not found, the returned error is of type avfs.UnknownUserIdError.
 func (idm *MemIdm) LookupUserId(uid int) (avfs.UserReader, error) {
+	verifYield(&idm.usrMu, false)
 	idm.usrMu.RLock()
 	defer idm.usrMu.RUnlock()
 
